@@ -2,13 +2,18 @@ import DuneVerif.Common.Proto
 import DuneVerif.Model.C06
 /-! line-protocol driver for C06 (format: see harness/mpi_c06.cc)
 
-  c06 P=<np> B=<items> mode=<f|v> f=<n> ty=<l|p> dirs=<f|b|fb|..> : E p q [..] [..];S p [..];...
+  c06 P=<np> B=<items> mode=<f|v> f=<n> ty=<l|p|c|v|n> dirs=<f|b|F|B ..> [ctor=<m|M|i|I|c|a>] : E p q [..] [..];S p [..];F p n;...
+
+`dirs`: one communicate call per letter; f/b use a handle of the case's mode, F/B one of the other mode.  The item type
+and the constructor do not change what has to be delivered (the default-buffer constructors M/I need B=32768).
 
 answer: `r0{q:(idx:[items],..) q':(..) | <second call>} r1{..} ..` -/
 open DV DV.C06
 
 structure Seg where
   isE : Bool
+  /-- `F p n` (fixed size of rank p's handle) is stored as a non-E segment with `isF` and `q = n` -/
+  isF : Bool := false
   p : Nat
   q : Nat
   a : List Nat
@@ -28,11 +33,15 @@ def parseSeg? (P B : Nat) (s : String) : Option (Option Seg) :=
     let a ← parseNatList? a
     let b ← parseNatList? b
     if p < P ∧ q < P ∧ a.length = b.length ∧ a.all (· < 4096) ∧ b.all (· < 4096) then
-      some (some ⟨true, p, q, a, b⟩) else none
+      some (some ⟨true, false, p, q, a, b⟩) else none
   | ["S", p, s] => do
     let p ← p.toNat?
     let s ← parseNatList? s
-    if p < P ∧ s.all (· ≤ B) then some (some ⟨false, p, 0, s, []⟩) else none
+    if p < P ∧ s.all (· ≤ B) then some (some ⟨false, false, p, 0, s, []⟩) else none
+  | ["F", p, n] => do
+    let p ← p.toNat?
+    let n ← n.toNat?
+    if p < P ∧ 1 ≤ n ∧ n ≤ B then some (some ⟨false, true, p, n, [], []⟩) else none
   | _ => none
 
 def itemValue (p i j : Nat) : Nat := ((p + 1) * 4096 + i) * 65536 + j
@@ -52,7 +61,9 @@ def rankData (segs : List Seg) (fixed : Bool) (f : Nat) (p : Nat) : RankData Nat
       first := (segs.filter (fun s => s.isE && s.p == p && s.q == n)).flatMap (·.a),
       second := (segs.filter (fun s => s.isE && s.p == n && s.q == p)).flatMap (·.b) : IfaceEntry }
   -- the last S segment of the rank wins
-  let sizes := (segs.filter (fun s => !s.isE && s.p == p)).getLast?.map (·.a) |>.getD []
+  let sizes := (segs.filter (fun s => !s.isE && !s.isF && s.p == p)).getLast?.map (·.a) |>.getD []
+  -- the last F segment of the rank wins, default: the header's f
+  let f := (segs.filter (fun s => s.isF && s.p == p)).getLast?.map (·.q) |>.getD f
   let sizeOf := fun i => if fixed then f else sizes.getD i 0
   { imap, handle := ⟨fixed, fun i => (List.range (sizeOf i)).map (itemValue p i)⟩ }
 
@@ -76,24 +87,35 @@ def handle (line : String) : String :=
     | [h] => (h, "")
     | h :: rest => (h, " : ".intercalate rest)
     | [] => ("", "")
-  match tokens head with
+  let hd := tokens head
+  -- the optional eighth header token
+  let (hd, ctor?) : List String × Option String :=
+    match hd with
+    | [a, p, b, mode, f, ty, dirs, c] => ([a, p, b, mode, f, ty, dirs], kv? "ctor" c)
+    | _ => (hd, some "m")
+  match hd with
   | ["c06", p, b, mode, f, ty, dirs] =>
     match (kv? "P" p).bind (·.toNat?), (kv? "B" b).bind (·.toNat?), kv? "mode" mode, (kv? "f" f).bind (·.toNat?),
-          kv? "ty" ty, kv? "dirs" dirs with
-    | some P, some B, some mode, some f, some ty, some dirs =>
+          kv? "ty" ty, kv? "dirs" dirs, ctor? with
+    | some P, some B, some mode, some f, some ty, some dirs, some ctor =>
       let fixed := mode == "f"
-      if (mode != "f" && mode != "v") || (ty != "l" && ty != "p") || P = 0 || P > 64 || B = 0 || f = 0
-         || (fixed && f > B) || dirs.isEmpty || !(dirs.toList.all fun c => c == 'f' || c == 'b') then "bad-op"
+      if (mode != "f" && mode != "v") || !(["l", "p", "c", "v", "n"].contains ty) || P = 0 || P > 64 || B = 0 || f = 0
+         || f > B || dirs.isEmpty || !(dirs.toList.all fun c => c == 'f' || c == 'b' || c == 'F' || c == 'B')
+         || !(["m", "M", "i", "I", "c", "a"].contains ctor) || ((ctor == "M" || ctor == "I") && B != 32768) then "bad-op"
       else
         match (body.splitOn ";").mapM (parseSeg? P B) with
         | none => "bad-op"
         | some segs =>
           let segs := segs.filterMap id
-          let ranks := (List.range P).map (rankData segs fixed f)
+          -- the handles of a call in the case's mode / in the other mode
+          let ranksOf := fun (fx : Bool) => (List.range P).map (rankData segs fx f)
+          let same := ranksOf fixed
+          let other := ranksOf (!fixed)
           " ".intercalate ((List.range P).map fun q =>
             "r" ++ toString q ++ "{" ++
-              " | ".intercalate (dirs.toList.map fun d => showRank B ranks q (d == 'f')) ++ "}")
-    | _, _, _, _, _, _ => "bad-op"
+              " | ".intercalate (dirs.toList.map fun d =>
+                showRank B (if d == 'f' || d == 'b' then same else other) q (d == 'f' || d == 'F')) ++ "}")
+    | _, _, _, _, _, _, _ => "bad-op"
   | _ => "bad-op"
 
 def main : IO Unit := runDriver handle
